@@ -345,6 +345,9 @@ func (i *Interpreter) Exec(ctx context.Context, bs match.Bindings, props core.St
 		// Exporting the result can run code (getters), so do
 		// that while that code can still be interrupted.
 		x, err = export(v)
+	} else if _, is := err.(*goja.InterruptedError); !is {
+		// Likewise for the text of the error (toString).
+		err = plainError(err)
 	}
 	cancel()
 
@@ -413,6 +416,20 @@ func export(v goja.Value) (x interface{}, err error) {
 		}
 	}()
 	return v.Export(), nil
+}
+
+// plainError makes an error that's just the text of the given error.
+//
+// An error from the runtime can hold the object that code threw, and
+// getting the error's text can run that object's code (toString),
+// which can throw.  Callers shouldn't have to deal with that.
+func plainError(err error) (plain error) {
+	defer func() {
+		if r := recover(); r != nil {
+			plain = fmt.Errorf("%s", r)
+		}
+	}()
+	return errors.New(err.Error())
 }
 
 func RunProgram(o *goja.Runtime, p *goja.Program) (v goja.Value, err error) {
